@@ -720,6 +720,8 @@ func kindConv() kind {
 	// zero-padded spellings (fixed-width output of scripts) are decimal too
 	ints = append(ints, "010", "0100", "007", "00", "09", "0800", "0000000000500000000", "000000000001", "0777", "01234567")
 	fracs = append(fracs, "010.5", "00000120.25", "00.000000001", "0777.000000777")
+	// fractional parts that are all zeros (what nund -> fund prints for round amounts), integer parts ending in 0
+	fracs = append(fracs, "10.0", "200.00", "120000000.000000000", "10.000000000", "1000.000", "0.000000000", "100.10", "50.050")
 	malformed := []string{"-", "abc", "1.2.3", "-5", "1e3"}
 	ln := func(a, f, t string) string { return "conv " + a + " " + f + " " + t }
 	return kind{"conv",
@@ -755,7 +757,11 @@ func kindConv() kind {
 				return ln(ip, "nund", "fund")
 			}
 			if fd := r.Intn(10); fd > 0 {
-				ip += "." + randDigits(r, fd, false)
+				if r.Intn(6) == 0 {
+					ip += "." + strings.Repeat("0", fd) // a zero tail
+				} else {
+					ip += "." + randDigits(r, fd, false)
+				}
 			}
 			return ln(ip, "fund", "nund")
 		}}
